@@ -251,3 +251,116 @@ def evaluate(case):
     ev.nontrivial = any(verdicts) or mut not in ("none", "unrelated")
     ev.sample = {"mut": mut, "pattern": pattern, "stream": "".join(records), "expected_by_flags": verdicts}
     return ev
+
+
+# ---------------------------------------------------------------------------------- small-scope exhaustive grid
+GRID_MN = ["a", "ab", "b"]
+GRID_OP = ["x", "xy", "y"]
+
+
+def _grid_items():
+    import itertools
+
+    items = []
+    for m in GRID_MN:
+        items.append((m, []))
+        for o1 in GRID_OP:
+            items.append((m, [o1]))
+            for o2 in GRID_OP:
+                items.append((m, [o1, o2]))
+    return items
+
+
+def _grid_listing():
+    """Every 1- and 2-instruction window over the 39-instruction alphabet, separated by a sentinel instruction."""
+    insts = _grid_items()
+    L = []
+    a = 0x1000
+    windows = []
+    def put(m, ops):
+        nonlocal a
+        L.append((format(a, "x"), m, list(ops)))
+        a += 4
+    put("zz", [])
+    for i1 in insts:
+        windows.append((len(L), 1))
+        put(*i1)
+        put("zz", [])
+    for i1 in insts:
+        for i2 in insts:
+            windows.append((len(L), 2))
+            put(*i1)
+            put(*i2)
+            put("zz", [])
+    return L, windows
+
+
+def _grid_chunk(args):
+    rules, flags_list = args
+    L, windows = _grid_listing()
+    sc = jasm_io.scratch()
+    lp = sc.write("grid.s", render(L))
+    bad = []
+    n = 0
+    for rule in rules:
+        pattern = [m if not ops else {m: ops} for m, ops in rule]
+        for mn_full, op_full in flags_list:
+            ref = Ref(L, mn_full, op_full)
+            spans = ref.spans(pattern)
+            # leftmost non-overlapping scan of the reference spans
+            exp = []
+            pos = 0
+            for i in sorted(spans):
+                if i >= pos:
+                    exp.append(L[i][0])
+                    pos = min(spans[i])  # item rules have exactly one end per start
+            rp = sc.write("grid_rule.yaml", jasm_io.rule_text(jasm_io.make_doc(pattern, mn_full, op_full)))
+            r = jasm_io.match_files(rp, lp, mode="list", search="all", only_addr=True)
+            n += 1
+            if r[0] != "ok" or r[1] != exp:
+                got = r[1] if r[0] == "ok" else list(r)
+                diff = sorted(set(exp) ^ set(got))[:4] if r[0] == "ok" else got
+                bad.append({"pattern": pattern, "flags": [mn_full, op_full], "first_differences_at": diff, "expected_count": len(exp), "observed_count": len(got) if r[0] == "ok" else None})
+    return n, bad
+
+
+def extra(tier, seed, rep):
+    """Names over {a,ab,b}, operands over {x,xy,y}, rules of <= 2 items x <= 2 operand names, against every 1-2 instruction window."""
+    import multiprocessing as mp
+
+    items = _grid_items()
+    rules = [[i] for i in items] + [[i, j] for i in items for j in items]
+    exhaustive = tier == "thorough"
+    if not exhaustive:
+        rules = [r for k, r in enumerate(rules) if k % 24 == seed % 24]  # a slice of the grid in the quick tier
+    chunks = [(rules[k::32], FLAGS) for k in range(32)]
+    with mp.get_context("fork").Pool(16) as pool:
+        results = pool.map(_grid_chunk, chunks)
+    _, windows = _grid_listing()
+    calls = sum(n for n, _ in results)
+    bad = [b for _, bs in results for b in bs]
+    rep.evaluations += calls
+    rep.subcases += calls * len(windows)
+    rep.extra["grid"] = {"rules": len(rules), "flag_settings": 4, "windows": len(windows), "api_calls": calls, "rule_window_verdicts": calls * len(windows), "complete": exhaustive}
+    if exhaustive:
+        rep.exhaustive_parts.append(f"small-scope grid: {len(rules)} rules x 4 flag settings x {len(windows)} windows")
+    from vlib.model import digest
+
+    for k in range(calls):
+        rep.hashes.add(digest(("grid", tier, k)))
+    for b in bad[:3]:
+        rep.violations.append(({"grid": True, "pattern": b["pattern"], "flags": b["flags"]}, dict(b, kind="grid-mismatch")))
+
+
+_evaluate_case = evaluate
+
+
+def evaluate(case):  # noqa: F811 - replayable grid cases
+    if case.get("grid"):
+        ev = Eval()
+        n, bad = _grid_chunk(([[(m if isinstance(m, str) else list(m)[0], [] if isinstance(m, str) else m[list(m)[0]]) for m in case["pattern"]]], [tuple(case["flags"])]))
+        for b in bad:
+            ev.dev("grid-mismatch", **b)
+        ev.nontrivial = True
+        return ev
+    return _evaluate_case(case)
